@@ -42,13 +42,13 @@ def impl_env(hashseed="0"):
     return env
 
 
-def run_impl(script, payload, timeout=1800, hashseed="0"):
+def run_impl(script, payload, timeout=1800, hashseed="0", extra_env=None):
     """Run harness/impl/<script>.py under the repo's interpreter; JSON in, JSON out."""
     p = subprocess.run(
         [PY_IMPL, os.path.join(VERIF, "harness", "impl", script + ".py")],
         input=json.dumps(payload).encode(),
         stdout=subprocess.PIPE, stderr=subprocess.PIPE,
-        env=impl_env(hashseed), timeout=timeout, cwd=VERIF)
+        env=dict(impl_env(hashseed), **(extra_env or {})), timeout=timeout, cwd=VERIF)
     if p.returncode != 0:
         raise RuntimeError("impl driver %s failed (rc=%d):\n%s" % (
             script, p.returncode, p.stderr.decode()[-4000:]))
